@@ -4,11 +4,13 @@ import (
 	"fmt"
 	"reflect"
 	"sort"
+	"strconv"
 	"strings"
 
 	formula "github.com/aundis/formula"
 
 	"verif/internal/eng"
+	"verif/internal/ref"
 )
 
 // HistCase: a sequence of operation codes applied to one fresh runner.
@@ -23,7 +25,7 @@ func init() {
 	c := eng.Register(&eng.Check{
 		ID:          "C20",
 		Title:       "A runner behaves like a plain map of data plus a separate key-value store",
-		Rule:        "operation menu of 22 (SetThis with nil / fresh maps / the same map again, SetThisValue, Resolve of 8 formulas that read and assign locals and fields, Set, Get): every history up to depth d is replayed on a fresh real runner in lock-step with a plain-map reference model (no state merging); then breadth-first to depth 7 with merging on the canonical observed state, where a state reached a second way must answer every probe like the first; after every step all caller-visible maps must equal the model's; distinct = distinct canonical states",
+		Rule:        "operation menu of 27 (SetThis with nil / fresh maps / the same map again, SetThisValue, Resolve of 8 formulas that read and assign locals and fields, Set, Get): every history up to depth d is replayed on a fresh real runner in lock-step with a plain-map reference model (no state merging); then breadth-first to depth 5 (quick) / 7 (thorough) with merging on the canonical observed state, where a state reached a second way must answer every probe like the first; after every step all caller-visible maps must equal the model's; distinct = distinct canonical states",
 		TrustedBase: []string{"plain-map model of the runner in checks/c20.go"},
 		Assumptions: []string{"merging drops caller maps the runner no longer references; leaks into them are covered by the unmerged exploration"},
 		Run:         runC20,
@@ -39,9 +41,33 @@ var c20OpNames = []string{
 	"SetThisValue(x,1)", "SetThisValue(x,2)", "SetThisValue($a,1)", "SetThisValue($a,2)",
 	"Resolve(x)", "Resolve($a)", "Resolve($a = x)", "Resolve($a = 2)", "Resolve($b = $a)", "Resolve([$a,$b,x])", "Resolve(this.x)", "Resolve(this)",
 	"Set(x,1)", "Set($a,2)", "Set(x,2)", "Get(x)", "Get($a)",
+	"Resolve($a = 7 / 3)", "Resolve(($a ?? 1) * 3)", "Resolve($a = 9007199254740993)", "Resolve(($a ?? 0) - 9007199254740992)", "Resolve($a = ($b = 2))",
 }
 
-var c20Formulas = map[int]string{9: "x", 10: "$a", 11: "$a = x", 12: "$a = 2", 13: "$b = $a", 14: "[$a,$b,x]", 15: "this.x", 16: "this"}
+var c20Formulas = map[int]string{9: "x", 10: "$a", 11: "$a = x", 12: "$a = 2", 13: "$b = $a", 14: "[$a,$b,x]", 15: "this.x", 16: "this",
+	22: "$a = 7 / 3", 23: "($a ?? 1) * 3", 24: "$a = 9007199254740993", 25: "($a ?? 0) - 9007199254740992", 26: "$a = ($b = 2)"}
+
+// exact values behind the canonical strings of the model (numbers only)
+var c20Decs = map[string]ref.Dec{}
+
+func c20Canon(d ref.Dec) string {
+	c := "n" + d.Rat().RatString()
+	c20Decs[c] = d
+	return c
+}
+
+func c20Dec(canon string, ifNull string) ref.Dec {
+	if canon == "null" {
+		d, _ := ref.ParseDec(ifNull)
+		return d
+	}
+	if d, ok := c20Decs[canon]; ok {
+		return d
+	}
+	// small integers created through canonImpl ("n1", "n2", "n9")
+	d, _ := ref.ParseDec(strings.TrimPrefix(canon, "n"))
+	return d
+}
 
 type c20World struct {
 	r    *formula.Runner
@@ -147,7 +173,7 @@ func (w *c20World) apply(op int) *eng.Fail {
 		v := []float64{1, 2, 1, 2}[op-5]
 		w.r.SetThisValue(k, v)
 		w.ensure()[k] = canonImpl(v)
-	case op >= 9 && op <= 16:
+	case op >= 9 && op <= 16, op >= 22 && op <= 26:
 		src := c20Formulas[op]
 		p, err := cachedParse(src)
 		if err != nil {
@@ -204,8 +230,35 @@ func (w *c20World) apply(op int) *eng.Fail {
 				}
 			}
 			want = ""
+		case 22:
+			seven, _ := ref.ParseDec("7")
+			three, _ := ref.ParseDec("3")
+			want = c20Canon(ref.Quo(seven, three, 34))
+			w.ensure()["$a"] = want
+		case 23:
+			three, _ := ref.ParseDec("3")
+			want = c20Canon(ref.Mul(c20Dec(get(m, "$a"), "1"), three).RoundHE(34))
+		case 24:
+			big, _ := ref.ParseDec("9007199254740993")
+			want = c20Canon(big)
+			w.ensure()["$a"] = want
+		case 25:
+			sub, _ := ref.ParseDec("9007199254740992")
+			want = c20Canon(ref.Sub(c20Dec(get(m, "$a"), "0"), sub).RoundHE(34))
+		case 26:
+			want = "n2"
+			mm := w.ensure()
+			mm["$b"] = want
+			mm["$a"] = want
 		}
-		if op != 16 {
+		if gf, isF := o.val.(float64); isF && op != 16 && strings.HasPrefix(want, "n") {
+			// Resolve hands a top-level number back as float64: compare with the float64 nearest to the exact model value
+			wd := c20Dec(want, "0")
+			wf, _ := strconv.ParseFloat(wd.Plain(), 64)
+			if gf != wf {
+				return eng.F("C20/resolve", "%s = %s, model says %v (exactly %s)", name, show(o.val), wf, wd.Plain())
+			}
+		} else if op != 16 {
 			if got := canonImpl(o.val); got != want {
 				return eng.F("C20/resolve", "%s = %s, model says %s", name, got, want)
 			}
@@ -337,6 +390,9 @@ func runC20(w *eng.W) {
 	p0, _ := w0.probes()
 	seen[w0.key()] = node{nil, p0}
 	maxDepth := 7
+	if w.Quick() {
+		maxDepth = 5
+	}
 	for d := 1; d <= maxDepth && len(frontier) > 0; d++ {
 		var next [][]int
 		for _, h := range frontier {
